@@ -27,7 +27,7 @@ def _cls(value):
 
 def _tok(kind, op, n, c="fin", d=None, fr=None, **extra):
     t = {"k": kind, "op": op, "n": n, "c": c, "d": d or ZERO, "hv": False, "v": [0, 1],
-         "ho": False, "oc": "fin", "od": ZERO, "dd": ZERO, "cnt": []}
+         "ho": False, "oc": "fin", "od": ZERO, "dd": ZERO, "cnt": [], "ar": n}
     if fr is not None and abs(fr.numerator) < 2000 and fr.denominator < 2000:
         t["hv"], t["v"] = True, [fr.numerator, fr.denominator]
     t.update(extra)
@@ -155,7 +155,7 @@ class Recorder:
             return [_tok("q", "leaf", 0, c, vec, fr)]        # numeric constant expression (pi, E, ...)
         else:
             op = "symbol"
-        return flat + [_tok("q", op, n, c, vec, fr)]
+        return flat + [_tok("q", op, n, c, vec, fr, ar=2 if op == "pow" else len(expr.args))]
 
     def _node_e(self, expr, c, vec, fr, children):  # pylint: disable=too-many-return-statements,too-many-branches
         import sympy as sp
@@ -190,23 +190,23 @@ class Recorder:
             if next(it, None) is not None:
                 return "BAD:operand events do not line up with the operands"
             op = {sp.Mul: "mul", sp.Add: "add"}.get(type(expr)) or ("min" if isinstance(expr, sp.Min) else "max")
-            return toks + [_tok("e", op, n, c, vec, fr)]
+            return toks + [_tok("e", op, n, c, vec, fr, ar=len(expr.args))]
         flat = [tok for ch in children for tok in ch]
         n = len(children)
         if isinstance(expr, sp.Pow):
-            return flat + [_tok("e", "powr", n, c, vec, fr)]
+            return flat + [_tok("e", "powr", n, c, vec, fr, ar=2)]
         if isinstance(expr, sp.Abs):
-            return flat + [_tok("e", "abs", n, c, vec, fr)]
+            return flat + [_tok("e", "abs", n, c, vec, fr, ar=1)]
         if isinstance(expr, sp.Derivative):
             cnt = [int(cnt_) if getattr(cnt_, "is_Integer", False) else -1 for _, cnt_ in expr.variable_count]
             if any(x < 0 for x in cnt) or len(cnt) != n - 1:
                 return "BAD:derivative with symbolic order"
-            return flat + [_tok("e", "deriv_e", n, c, vec, fr, cnt=cnt)]
+            return flat + [_tok("e", "deriv_e", n, c, vec, fr, cnt=cnt, ar=1 + len(cnt))]
         if isinstance(expr, sp.Function):
             dd = project_dim(getattr(expr.func, "dimension", None)) if hasattr(expr.func, "dimension") else ZERO
             if dd is None:
                 return "BAD:leaf dimension outside the base dimensions"
-            return flat + [_tok("e", "func_e", n, c, vec, fr, dd=dd)]
+            return flat + [_tok("e", "func_e", n, c, vec, fr, dd=dd, ar=len(expr.args))]
         return [_tok("e", "leaf", 0, c, vec, fr)]       # anything else is returned unchanged, dimensionless
 
     def dump(self, path):
